@@ -97,6 +97,8 @@ structure Pres (σ R : Type) where
   side : σ → Val
   suite : R → Val
   report : R → Val
+  /-- what the reordering callback returns for the (plain text) "skipping" message -/
+  skip : Val
 
 def domV (ops : Ops σ R) (P : Pres σ R) (s : σ) : Val :=
   .record [("points", .record [("shape", .list [.none, .int (ops.dim s)])]), ("payload", P.side s)]
@@ -118,7 +120,7 @@ def selfV (ops : Ops σ R) (P : Pres σ R) (fl : LadderFlags) (s r : σ) : Val :
 
 def msgV (P : Pres σ R) : Msg R → Val
   | .retry o w => .list [.str "msg", P.report o, .str w]
-  | .skip => .str "Skipping mesh reordering because both meshes are structured"
+  | .skip => P.skip
   | .final o => .list [.str "msg", P.report o]
 
 def excR (ops : Ops σ R) (P : Pres σ R) : Except String σ → Res Val
@@ -130,12 +132,14 @@ def excR (ops : Ops σ R) (P : Pres σ R) : Except String σ → Res Val
     one is `C11_source_comparator_call`); the four transformations are `ops.extend / strip / sortPoints / sortCells` (an
     exception of theirs is raised); `isinstance(domain, mesh_protocols.StructuredMesh)` is `ops.structured`;
     `_mesh_fail_msg` builds the message from the report (texts opaque); the reordering callback returns the message it
-    was given (so the trace lists the messages). -/
+    was given (so the trace lists the messages), and `P.skip` for the plain-text message (its wording is not part of the
+    statement). -/
 structure LadderExt (X : Ext) (ops : Ops σ R) (P : Pres σ R) (fl : LadderFlags) (selV cbV rcbV smV : Val) : Prop where
   hrun : ∀ s r, X "._run_comparison" [selfV ops P fl s r, selV, cbV] = .ok (suiteV ops P (ops.run s r))
   hmsg3 : ∀ sv rp w, X "._mesh_fail_msg" [sv, rp, .str w] = .ok (.list [.str "msg", rp, .str w])
   hmsg2 : ∀ sv rp, X "._mesh_fail_msg" [sv, rp] = .ok (.list [.str "msg", rp])
-  hcb : ∀ v, X "call" [rcbV, v] = .ok v
+  hcb : ∀ l, X "call" [rcbV, .list l] = .ok (.list l)
+  hcbs : ∀ t, X "call" [rcbV, .str t] = .ok P.skip
   hext : ∀ (d : Nat) s, X "extend_space_dimension_to" [.int d, sideV ops P s] = excR ops P (ops.extend d s)
   hstrip : ∀ s, X "strip_orphan_points" [sideV ops P s] = excR ops P (ops.strip s)
   hsortp : ∀ s, X "sort_points" [sideV ops P s] = excR ops P (ops.sortPoints s)
